@@ -449,7 +449,10 @@ def run(rep):
     tier, rng = rep.tier, Rng(rep.seed)
     cov = rep.cov
     broken = []
-    po = common.proof_obligations(PROP_FILES)
+    # translator: the address book (is_newer, get_newer, ValidatorAddrs::update, Watch::update / announce) is regenerated from the source; Properties/C18Gen.v proves it equal to Model/AddrBook.v
+    import rust2coq
+    translator, gen_files = rust2coq.step(["addr_book"], ["theories/Properties/C18Gen.v"], broken)
+    po = common.proof_obligations(PROP_FILES + gen_files)
     if not po["ok"]:
         broken.append("Coq obligations of Properties/C18.v: " + (po["log_tail"] or str(po["hygiene_problems"] or po["bad_axioms"])))
     for prof in ("dev", "release"):
@@ -605,7 +608,7 @@ def run(rep):
             "hook zksync_consensus_network::verif::gossip::AddrBook (thin wrapper of ValidatorAddrsWatch::{update, announce, current})",
             "loops: real nodes built and run through the public Network::new / Runner::run; the scripted peer of vh addrloops hand-encodes preface, gossip handshake and rpc frames and uses the hooks verif::NoiseStream and verif::mux::{VMux, VQueue}; a node's book is read as the first push on a fresh connection",
         ]),
-        "theorems": po["theorems"], "axioms": po["axioms"],
+        "theorems": po["theorems"], "axioms": po["axioms"], "translator": translator,
         "evaluations": evals,
         "distinct_nontrivial": len(dist),
         "rule": "operation sequences (2-12 ops) on a fresh book over an 8-key pool: update batches of 0-7 announcements under committees of 1-6 keys "
